@@ -604,7 +604,67 @@ def run_twice_probe(sh, case):
     G.unload(mod)
 
 
+LOOPRANGE_SRC = """
+from pymtl3 import *
+class LSink(Component):
+  def construct(s):
+    s.in_ = InPort(8)
+class Undriven(Component):          # s.ws[{n}] is never written, but feeds s.k.in_
+  def construct(s):
+    s.ws = [Wire(8) for _ in range({n} + 1)]
+    s.k = LSink()
+    s.k.in_ //= s.ws[{n}]
+    @update
+    def up():
+      for i in range({n}):
+        s.ws[i] @= 1
+class Halves(Component):            # no element has two drivers
+  def construct(s):
+    s.out = [OutPort(8) for _ in range({m} * 2)]
+    @update
+    def lo():
+      for i in range(0, {m}): s.out[i] @= 1
+    @update
+    def hi():
+      for i in range({m}, {m} * 2): s.out[i] @= 2
+class Control(Component):           # the same halves written element by element: accepted
+  def construct(s):
+    s.out = [OutPort(8) for _ in range(2)]
+    @update
+    def lo(): s.out[0] @= 1
+    @update
+    def hi(): s.out[1] @= 2
+"""
+
+
+def run_looprange_probe(sh):
+  """probe stream for the listed finding F-S22: a list index that is a loop variable counts as EVERY element, whatever the range of
+  the loop - a net fed by an element the loop never reaches has no driver yet elaborates, two blocks writing disjoint halves with
+  two loops are refused as a double driver"""
+  rng = sh.rng("looprange")
+  n, m = rng.randrange(1, 4), rng.randrange(1, 4)
+  mod = G.load_source(LOOPRANGE_SRC.format(n=n, m=m), "c09loop")
+  mech = "loop-variable-index-counts-as-every-element"
+  try:
+    res = {}
+    for nm in ("Undriven", "Halves", "Control"):
+      try: getattr(mod, nm)().elaborate(); res[nm] = None
+      except Exception as e: res[nm] = type(e).__name__
+      sh.count("elaborations")
+    sh.count("loop_range_probes")
+    if res["Control"] is not None:
+      sh.violation("defect-free-design-rejected", {"design": "Control", "outcome": res["Control"], "design_source": LOOPRANGE_SRC.format(n=n, m=m)}, case=("looprange", "control")); return
+    if res["Undriven"] is None:
+      sh.violation("defective-design-elaborated-without-error", {"defect": "net-without-driver (the loop stops before the element that feeds the net)", "expected": ["NoWriterError"],
+                   "design": "Undriven", "n": n}, mechanism=mech, case=("looprange", "undriven"))
+    if res["Halves"] is not None:
+      sh.violation("defect-free-design-rejected", {"design": "Halves (two loops over disjoint index ranges)", "outcome": res["Halves"], "m": m}, mechanism=mech, case=("looprange", "halves"))
+  finally:
+    G.unload(mod)
+
+
 def run_shard(sh):
+  if sh.idx == 0: run_looprange_probe(sh)
   for case in range(6 if sh.tier == "quick" else 60):
     run_twice_probe(sh, sh.idx * 1000 + case)
   for case in range(12 if sh.tier == "quick" else 200):
